@@ -2,10 +2,14 @@ package main
 
 import (
 	"math/bits"
+	"net/http/httptest"
 	"fmt"
 	"os"
 	"path/filepath"
 	"strings"
+
+	"github.com/elnosh/gonuts/cashu"
+	"github.com/elnosh/gonuts/wallet"
 )
 
 // Stream "wallet-hist" (C17, C19): random sequential histories of REAL wallets against REAL in-process mints
@@ -445,6 +449,7 @@ func runWalletHist(c *Ctx) {
 	if c.Thorough {
 		n = 220
 	}
+	keysSubstitution(c)
 	witnessF12(c)
 	witnessF13(c)
 	witnessF10(c)
@@ -547,6 +552,53 @@ func witnessF13(c *Ctx) {
 		b.pruneTokens()
 		hw.after(fmt.Sprintf("witness-f13/receive-%d/%s", k+1, errTag(err)))
 	}
+}
+
+// keysSubstitution (C10): the keys a wallet verifies DLEQ proofs and unblinds with come from GET /v1/keys/{id}.  If the
+// answer is the (self-consistent) document of ANOTHER keyset, the wallet must refuse it — the keyset id is the hash of
+// the keys, and "a signature made with a different key than the published one is always detected" only holds if the
+// keys stored under an id are the keys of THAT id.
+func keysSubstitution(c *Ctx) {
+	hw, err := newHistWorld(c, "keysub", []uint{0}, 1)
+	if err != nil {
+		c.Disagree([]string{"C10"}, "setup-keysub", err.Error(), "", nil)
+		return
+	}
+	defer hw.close()
+	b := hw.b
+	m := b.mints[0]
+	idA := m.env.ActiveKeysetId()
+	b.OpRotate(m, 0)
+	idB := m.env.ActiveKeysetId()
+	if idA == idB {
+		return
+	}
+	fetch := func(id string) []byte {
+		rec := httptest.NewRecorder()
+		m.env.Srv.VerifHandler().ServeHTTP(rec, httptest.NewRequest("GET", "/v1/keys/"+id, nil))
+		return rec.Body.Bytes()
+	}
+	docA := fetch(idA)
+	b.net.After = func(r *WireReq) error {
+		if r.Method == "GET" && r.Path == "/v1/keys/"+idB {
+			r.Resp = docA
+		}
+		return nil
+	}
+	defer func() { b.net.After = nil }()
+	replay := map[string]any{"scenario": "GET /v1/keys/" + idB + " answered with the document of keyset " + idA}
+	if keys, err := wallet.GetKeysetKeys(m.url, idB); err == nil {
+		c.MonitorFail("C10", "C10/wallet/keys-of-another-keyset-accepted", fmt.Sprintf("wallet.GetKeysetKeys(%s) accepted %d keys whose keyset id is %s", idB, len(keys), idA), replay)
+	}
+	if ks, err := wallet.GetMintActiveKeyset(m.url, cashu.Sat); err == nil && ks != nil {
+		c.MonitorFail("C10", "C10/wallet/keys-of-another-keyset-accepted", "wallet.GetMintActiveKeyset stored, under the active keyset's id "+ks.Id+", the keys of keyset "+idA, replay)
+	}
+	// control: the honest answer is accepted
+	b.net.After = nil
+	if _, err := wallet.GetKeysetKeys(m.url, idB); err != nil {
+		c.MonitorFail("C10", "C10/wallet/own-keys-refused", "wallet.GetKeysetKeys refuses the mint's honest document: "+err.Error(), replay)
+	}
+	c.Case("keys-substitution", true)
 }
 
 // witnessF16: a Melt whose request the mint refuses (the fee estimate of swapToSend is too low at 1000 ppk, K6)
